@@ -122,3 +122,27 @@ package common
 //@   loop 0 invariant relayed: outlen(dst) - old(outlen(dst)) == inpos(src) - old(inpos(src)) && err == nil
 //@   loop 0 invariant inOrder: forall k int :: 0 <= k && k < inpos(src) - old(inpos(src)) ==> outbyte(dst, old(outlen(dst)) + k) == inbyte(src, old(inpos(src)) + k)
 //@   loop 0 invariant buffer: len(buf) == 32768 && size == 32768
+
+// WebSocketConn.Read (C05): one binary message per call. Every chunk of the message is appended right
+// after what has been read so far; a nil error means the message's reader was drained to its end
+// (the last chunk read ended with io.EOF) - a message that does not fit is an error, never a
+// truncated delivery; the count never exceeds the buffer.
+//@ func (*github.com/gorilla/websocket.Conn).NextReader
+//@   flag trusted
+//@   ensures err == nil ==> r != nil
+//@ func (*WebSocketConn).Read
+//@   requires ws != nil && ws.Conn != nil
+//@   atcall Read requires appendsAfterWhatWasRead: sameSlice(arg0.([]byte), buf[n:])
+//@   ensures bounds: 0 <= n && n <= len(buf)
+//@   ensures wholeMessageOrError: err == nil && called("(io.Reader).Read") ==> !succeeded("(io.Reader).Read")
+//@   flag noframe
+//@   loop 0 invariant progress: 0 <= n && n <= len(buf) && r != nil
+//@ func (*WebSocketConn).Close
+//@   requires ws != nil && !held(ws.writeM)
+//@   atcall Close requires notDuringAWrite: heldx(ws.writeM)
+//@   ensures locks: !held(ws.writeM)
+//@   flag noframe
+//@ func (*TLSConn).Close
+//@   requires tls != nil && tls.Conn != nil
+//@   ensures underlyingClosed: closedconn(tls.Conn)
+//@   modifies connclosed(tls.Conn)
